@@ -425,6 +425,10 @@ var bannedPkgs = map[string]string{"math/rand": "random", "math/rand/v2": "rando
 func RunDetPure(c *core.Ctx) {
 	const src = "S0"
 	nRange, nFuncs := 0, 0
+	nMarshal := 0
+	defer func() {
+		c.Check(nMarshal >= 1, "T.det", "generator marshal calls found", fmt.Sprintf("%d proto marshal call(s) in the generator packages", nMarshal), "no proto marshal call found in the generator packages (anchor lost: genFileDescriptor serialises the file descriptor)", "", src)
+	}()
 	for _, rel := range LGen {
 		p := c.Pkg(rel)
 		if p == nil {
@@ -434,8 +438,63 @@ func RunDetPure(c *core.Ctx) {
 		info := p.TypesInfo
 		// --- banned references (who-may-call, by resolved object)
 		bad := 0
+		// code of the main package that cannot run on the way to a response: the gates of informational modes (their
+		// effects are confined to paths that end the run, see gateFuncs) and unexported functions that nothing refers to
+		// any more (inlined by the helper normalisation and judged where they were inlined)
+		offPath := func(pos token.Pos) bool { return false }
+		if rel == "cmd/protoc-gen-go-pulsar" {
+			var spans [][2]token.Pos
+			for fd := range gateFuncs(p) {
+				spans = append(spans, [2]token.Pos{fd.Pos(), fd.End()})
+			}
+			usedFn := map[types.Object]bool{}
+			for _, obj := range info.Uses {
+				if _, isF := obj.(*types.Func); isF {
+					usedFn[obj] = true
+				}
+			}
+			eachFunc(p, func(fd *ast.FuncDecl) {
+				o := info.Defs[fd.Name]
+				if o != nil && !ast.IsExported(fd.Name.Name) && !usedFn[o] && fd.Recv == nil && fd.Name.Name != "main" && fd.Name.Name != "init" {
+					spans = append(spans, [2]token.Pos{fd.Pos(), fd.End()})
+				}
+			})
+			offPath = func(pos token.Pos) bool {
+				for _, sp := range spans {
+					if pos >= sp[0] && pos < sp[1] {
+						return true
+					}
+				}
+				return false
+			}
+			// functions referred to from such code only are off the path too (a helper of a gate runs only inside the gate,
+			// and a gate has no effect — hence calls nothing — unless it ends the run)
+			for changed := true; changed; {
+				changed = false
+				eachFunc(p, func(fd *ast.FuncDecl) {
+					o := info.Defs[fd.Name]
+					if o == nil || fd.Recv != nil || ast.IsExported(fd.Name.Name) || fd.Name.Name == "main" || fd.Name.Name == "init" || offPath(fd.Pos()) {
+						return
+					}
+					n, all := 0, true
+					for id, obj := range info.Uses {
+						if obj == o {
+							n++
+							all = all && offPath(id.Pos())
+						}
+					}
+					if n > 0 && all {
+						spans = append(spans, [2]token.Pos{fd.Pos(), fd.End()})
+						changed = true
+					}
+				})
+			}
+		}
 		for id, obj := range info.Uses {
 			if obj == nil || obj.Pkg() == nil {
+				continue
+			}
+			if offPath(id.Pos()) {
 				continue
 			}
 			q := obj.Pkg().Path() + "." + obj.Name()
@@ -467,6 +526,7 @@ func RunDetPure(c *core.Ctx) {
 			runArgsFlow(c, p, rel, src)
 			runCarriedState(c, p, rel, src)
 		}
+		nMarshal += runMarshalDet(c, p, rel, src)
 		// a pointer (channel, function) handed to a formatting call is printed as an address, which differs from run to
 		// run: fmt.Sprint*/Errorf/Fprint* and the emitting P(...) must not receive one, unless its type says how it prints
 		nFmt, nPtr := 0, 0
@@ -1674,4 +1734,74 @@ func runCarriedState(c *core.Ctx, p *packages.Package, rel, src string) {
 		c.Check(len(bad) == 0, "T.pure", con, "the set of processed messages: indexed by the message's own full name only, and passed on to the recursive calls",
 			"state other than the set of processed messages is carried from one message (and file) to the next, so what is generated for a file depends on the files before it: "+strings.Join(bad, "; "), c.PosStr(p.Fset, po.Pos()), src)
 	}
+}
+
+// runMarshalDet (T.det): whatever the generator serialises ends up in its output (the embedded raw descriptor). A
+// message with map fields — custom options are linked into real messages and may hold maps — serialises in Go's
+// map iteration order unless Deterministic is set: every proto marshal call in the generator packages goes through
+// MarshalOptions with Deterministic: true.
+func runMarshalDet(c *core.Ctx, p *packages.Package, rel, src string) int {
+	info := p.TypesInfo
+	n := 0
+	detLit := func(x ast.Expr) bool {
+		cl, ok := ast.Unparen(x).(*ast.CompositeLit)
+		if !ok {
+			return false
+		}
+		for _, e := range cl.Elts {
+			if kv, ok := e.(*ast.KeyValueExpr); ok {
+				if k, ok := kv.Key.(*ast.Ident); ok && k.Name == "Deterministic" {
+					if tv, ok := info.Types[kv.Value]; ok && tv.Value != nil && tv.Value.Kind() == constant.Bool && constant.BoolVal(tv.Value) {
+						return true
+					}
+				}
+			}
+		}
+		return false
+	}
+	eachFunc(p, func(fd *ast.FuncDecl) {
+		// single-definition locals bound to an options literal
+		defs := map[types.Object]ast.Expr{}
+		cnt := map[types.Object]int{}
+		ast.Inspect(fd, func(x ast.Node) bool {
+			if as, ok := x.(*ast.AssignStmt); ok && len(as.Lhs) == len(as.Rhs) {
+				for i, l := range as.Lhs {
+					if id, ok := l.(*ast.Ident); ok {
+						o := info.ObjectOf(id)
+						cnt[o]++
+						defs[o] = as.Rhs[i]
+					}
+				}
+			}
+			return true
+		})
+		ast.Inspect(fd, func(x ast.Node) bool {
+			call, ok := x.(*ast.CallExpr)
+			if !ok {
+				return true
+			}
+			q := core.QualName(core.CalleeObj(info, call))
+			con := fmt.Sprintf("%s.%s %s", rel, fnName(fd), clip(types.ExprString(call.Fun), 60))
+			switch q {
+			case "google.golang.org/protobuf/proto.Marshal":
+				n++
+				c.Fail("T.det", con, "proto.Marshal serialises map fields in Go's map iteration order: what the generator embeds can differ from run to run", c.PosStr(p.Fset, call.Pos()), src)
+			case "google.golang.org/protobuf/proto.MarshalOptions.Marshal", "google.golang.org/protobuf/proto.MarshalOptions.MarshalAppend", "google.golang.org/protobuf/proto.MarshalOptions.MarshalState":
+				n++
+				sel, _ := ast.Unparen(call.Fun).(*ast.SelectorExpr)
+				ok := false
+				if sel != nil {
+					ok = detLit(sel.X)
+					if id, isID := ast.Unparen(sel.X).(*ast.Ident); isID && !ok {
+						if o := info.ObjectOf(id); cnt[o] == 1 {
+							ok = detLit(defs[o])
+						}
+					}
+				}
+				c.Check(ok, "T.det", con, "marshals with Deterministic: true", "the generator serialises a message without Deterministic: true: map fields (custom options may hold them) come out in Go's map iteration order, so what is embedded can differ from run to run", c.PosStr(p.Fset, call.Pos()), src)
+			}
+			return true
+		})
+	})
+	return n
 }
